@@ -872,9 +872,10 @@ def finding_key(case, impl, lean):
         loc = case["loc"]
         base = loc.partition("#")[0]
         own = base.partition("?")[2]
+        # classes repaired by 1ca38117 / d815dc9a: named so that a regression surfaces under its old name
+        # (none of them is a known finding any more: each gives VIOLATION)
         if "?" in base and own != "" and own.endswith("?"):
             return "C14/add-query-trailing-question-mark"
-        # the two classes repaired by 1ca38117: named so that a regression surfaces under its old name
         if "#" in loc:
             return "C14/redirect-destination-fragment"
         if "?" in base and not "".join(ch for ch in own if ch not in "\t\r\n"):
